@@ -140,11 +140,23 @@ class SymVec:
 
     def __add__(self, o): return self._bin(o, lambda a, b: a + b)
     __radd__ = __add__
-    __iadd__ = __add__
     def __sub__(self, o): return self._bin(o, lambda a, b: a - b)
     def __mul__(self, o): return self._bin(o, lambda a, b: a * b)
     __rmul__ = __mul__
     def __truediv__(self, o): return self._bin(o, lambda a, b: a / b)
+
+    # augmented assignment works in place, as on a numpy array (aliases of the vector see the change)
+    def _inplace(self, r):
+        self.xs = list(r.xs)
+        return self
+
+    def __iadd__(self, o): return self._inplace(self + o)
+    def __isub__(self, o): return self._inplace(self - o)
+    def __imul__(self, o): return self._inplace(self * o)
+    def __itruediv__(self, o): return self._inplace(self / o)
+
+    def copy(self):
+        return SymVec(list(self.xs))
 
     def tolist(self):
         return list(self.xs)
